@@ -13,3 +13,16 @@ for rel in files:
     out[rel] = sorted(all_qualnames(mod))
 json.dump(out, open(os.path.join(os.path.dirname(os.path.abspath(__file__)), "..", "reference", "functions.json"), "w"), indent=0, sort_keys=True)
 print(sum(len(v) for v in out.values()), "functions in", len(out), "files")
+# module-level (and class-level) assigned names: a constant that is NOT listed here was hoisted out of a function later and is put back
+names = {}
+for rel in files:
+    mod = ast.parse(open(os.path.join(REPO, rel), encoding="utf-8").read())
+    ns = set()
+    for st in mod.body:
+        for t in (st.targets if isinstance(st, ast.Assign) else [st.target] if isinstance(st, (ast.AnnAssign, ast.AugAssign)) else []):
+            for x in ast.walk(t):
+                if isinstance(x, ast.Name):
+                    ns.add(x.id)
+    names[rel] = sorted(ns)
+json.dump(names, open(os.path.join(os.path.dirname(os.path.abspath(__file__)), "..", "reference", "module_names.json"), "w"), indent=0, sort_keys=True)
+print(sum(len(v) for v in names.values()), "module-level names")
